@@ -44,9 +44,9 @@ var mutantCatalogue = []Mutant{
 		Expect: "save-sibling:*",
 		Why:    "ToBytes and Save disagree about the regenerated parts"},
 	{Name: "save-close-renamed-err", Kind: "benign", Prop: "C05", File: fDoc,
-		Old:    "	if err := zipWriter.Close(); err != nil {\n		Errorf(\"无法完成ZIP写入: %s\", filename)\n		return WrapErrorWithContext(\"close_zip\", err, filename)\n	}\n",
-		New:    "	closeErr := zipWriter.Close()\n	if closeErr != nil {\n		Errorf(\"无法完成ZIP写入: %s\", filename)\n		return WrapErrorWithContext(\"close_zip\", closeErr, filename)\n	}\n",
-		Why:    "two-statement form of the same check"},
+		Old: "	if err := zipWriter.Close(); err != nil {\n		Errorf(\"无法完成ZIP写入: %s\", filename)\n		return WrapErrorWithContext(\"close_zip\", err, filename)\n	}\n",
+		New: "	closeErr := zipWriter.Close()\n	if closeErr != nil {\n		Errorf(\"无法完成ZIP写入: %s\", filename)\n		return WrapErrorWithContext(\"close_zip\", closeErr, filename)\n	}\n",
+		Why: "two-statement form of the same check"},
 
 	// ---------------------------------------------------------------- C01 package well-formedness
 	{Name: "media-ext-from-caller", Kind: "breaking", Prop: "C01", File: fImg,
